@@ -46,6 +46,15 @@ CHECKS = {
         "Twins of the C03/C04 scenarios with every callback, or one single callback, a coroutine function that yields to the loop; sync facade and in-loop drivers.",
         "DESIGN.md section 4 C05",
     ),
+    "C06": (
+        "AST -> IR -> z3 bounded model checking (QF_BV) of the real dispatch functions over all schedules; models replayed on real threads / asyncio tasks through gated queue and lock",
+        "The dispatch loop's current source is lowered to a transition system on every run; reachability of overlap / duplicate or misordered processing / "
+        "stranded event / held lock is decided by z3 for every schedule of 2-3 senders within the unrolling bound (unwinding assertion discharged); every "
+        "model is confirmed on the real engine before it is reported.",
+        "Trusted: the lowering (validated against the real engine's shared-operation traces on single-sender scenarios each run), atomicity of one "
+        "queue/lock operation under the GIL, the opaque model of _trigger (begin / nested put / yields / end-or-raise). Bounds: evidence.coverage.bounds.",
+        "DESIGN.md section 4 C06, 3.4, 10b",
+    ),
     "C07": sx(
         "every bounded signature x call shape bound on symbolic argument objects and compared, by identity, with a reference binding",
         "All legal signatures up to the stated size and all call shapes are bound through the real adapter (and end-to-end through send) with "
@@ -148,6 +157,12 @@ def main():
             "add_only": True,
         },
         "engines": [
+            {
+                "name": "bmc",
+                "path": "vfw/bmc.py",
+                "serves_properties": [c["property_id"] for c in checks if c["engine"] == "bmc"],
+                "kind_free_text": "AST->IR lowering of the dispatch loop + QF_BV bounded model checking over schedules (vfw/bmc_ts.py) + gated replay on real threads/tasks (harness/c06.py)",
+            },
             {
                 "name": "symx",
                 "path": "vfw/symx.py",
